@@ -173,14 +173,14 @@ func c19Run(cs c19Case, col *evid.Collector) {
 		if kind != "" {
 			ctx := "plain"
 			switch {
+			case kind == "predicted-not-possible-but-recorded-merge-verifies" && cs.Threshold == 1 && authorisedNew && !cs.Global:
+				ctx = "threshold-1-rule-is-never-predicted-as-signature-needed"
+			case cs.Merge && cs.FileRule && !ok:
+				ctx = "merge-commit-itself-is-subject-to-file-rules"
 			case cs.Global:
 				// derivative of C11: with any global rule the exhaustive
 				// verifier answers first and delegation rules are bypassed
 				ctx = "global-rule-present"
-			case kind == "predicted-not-possible-but-recorded-merge-verifies" && cs.Threshold == 1 && authorisedNew:
-				ctx = "threshold-1-rule-is-never-predicted-as-signature-needed"
-			case cs.Merge && cs.FileRule && !ok:
-				ctx = "merge-commit-itself-is-subject-to-file-rules"
 			case cs.FileRule:
 				ctx = "file-rule"
 			case cs.Merge:
